@@ -71,7 +71,11 @@ SUBMODULES = ["os.path", "json.decoder", "json.tool", "homeassistant.const", "ho
               "json.nosuch_zz", "voluptuous.error", "string.templatelib", "time.sleep", "random.seed"]
 STUBS = [("stubs", "x"), ("stubs.gen", "a"), ("stubs.pyscript_builtins", "state"), ("stubs.deep.er", "q")]
 EXCLUDED = ["open", "compile", "input", "breakpoint", "memoryview", "print"]
-SCOPES = ["module", "func", "class", "listcomp", "eval", "exec", "lambda", "compiled"]
+SCOPES = ["module", "func", "class", "listcomp", "eval", "exec", "lambda", "compiled",
+          # a name the function declares `global` while the script's globals do not define it, through every route
+          "global-decl", "global-decl-nested", "global-decl-method", "global-decl-exec", "global-decl-eval", "global-decl-many",
+          # further places a plain name can be read from
+          "nested-func", "method", "class-in-func", "dictcomp", "setcomp", "func-default", "call-arg", "exec-in-func"]
 
 
 # ------------------------------------------------------------------------------------------------
@@ -378,7 +382,21 @@ def work(job):
                        "eval": "_r = eval(%r)" % n,
                        "exec": "exec(%r)" % ("_r = %s" % n),
                        "lambda": "_r = (lambda: %s)()" % n,
-                       "compiled": "@pyscript_compile\ndef _f():\n    return %s\n_r = _f()" % n}[cs["scope"]]
+                       "compiled": "@pyscript_compile\ndef _f():\n    return %s\n_r = _f()" % n,
+                       "global-decl": "def _f():\n    global %s\n    return %s\n_r = _f()" % (n, n),
+                       "global-decl-nested": "def _g():\n    def _f():\n        global %s\n        return %s\n    return _f()\n_r = _g()" % (n, n),
+                       "global-decl-method": "class _C:\n    def m(self):\n        global %s\n        return %s\n_o = _C()\n_r = _o.m()" % (n, n),
+                       "global-decl-exec": "exec(%r)" % ("def _f():\n    global %s\n    return %s\n_r = _f()" % (n, n)),
+                       "global-decl-eval": "def _f():\n    global %s\n    return eval(%r)\n_r = _f()" % (n, n),
+                       "global-decl-many": "def _f():\n    global _zz1, %s, _zz2\n    x = [%s]\n    return x[0]\n_r = _f()" % (n, n),
+                       "nested-func": "def _g():\n    def _f():\n        return %s\n    return _f()\n_r = _g()" % n,
+                       "method": "class _C:\n    def m(self):\n        return %s\n_o = _C()\n_r = _o.m()" % n,
+                       "class-in-func": "def _f():\n    class _C:\n        v = %s\n    return _C.v\n_r = _f()" % n,
+                       "dictcomp": "_r = {0: %s for _ in [1]}[0]" % n,
+                       "setcomp": "_r = [x for x in {%s for _ in [1]}][0]" % n,
+                       "func-default": "def _f(x=%s):\n    return x\n_r = _f()" % n,
+                       "call-arg": "def _f(x):\n    return x\n_r = _f(%s)" % n,
+                       "exec-in-func": "def _f():\n    exec(%r)\n    return locals().get('_q')\n_r = _f()" % ("_q = %s" % n)}[cs["scope"]]
                 try:
                     a.parse(src)
                     await a.eval()
@@ -413,8 +431,11 @@ def work(job):
                 sys.stdout = real_out
                 root.setLevel(logging.INFO)
             text = fake_out.getvalue()
-            for where, func in (("module", "-"), ("trigger", "trig17"), ("service", "svc17"), ("helper-of-trigger", "trig17")):
+            for where, func in (("module", "-"), ("trigger", "trig17"), ("service", "svc17"), ("helper-of-trigger", "trig17"),
+                                ("global-decl", "trig17")):
                 for fn in ("print", "log.debug", "log.info", "log.warning", "log.error"):
+                    if where == "global-decl" and fn != "print":
+                        continue
                     mk_ = "MK17-%s-%s" % (where, fn)
                     loggers = sorted(n for (n, _l, m) in w.logs if m.strip() == mk_)
                     out.append({"kind": "log", "id": "L-%s-%s-%s" % (job["sub"], where, fn), "fn": fn, "where": where, "ctxname": "file.logs17",
@@ -431,7 +452,9 @@ def _log_lines(where):
 
 
 LOG_SCRIPT = (_log_lines("module") + "\n\ndef helper17():\n" + _log_lines("helper-of-trigger") +
+              "\n\ndef gp17():\n    global print\n    print('MK17-global-decl-print')\n"
               "\n\n@event_trigger('ev17')\ndef trig17(**kw):\n" + _log_lines("trigger") + "\n    helper17()\n"
+              "    try:\n        gp17()\n    except NameError:\n        pass\n"
               "\n@service\ndef svc17():\n" + _log_lines("service") + "\n")
 
 
